@@ -25,12 +25,13 @@ class LoopSpec:
     decreases(L) -> z3 Int term (while loops; checked >= 0 and strictly decreasing)
     """
 
-    def __init__(self, invariant, kinds=None, decreases=None, modifies=None, hints=None):
+    def __init__(self, invariant, kinds=None, decreases=None, modifies=None, hints=None, post=None):
         self.invariant = invariant
         self.kinds = kinds or {}
         self.decreases = decreases
         self.modifies = modifies
         self.hints = hints          # hints(L) -> [formula] lemma instances assumed (recorded)
+        self.post = post            # post(L) -> [(label, formula)]: proved at loop exit, then assumed (cut)
 
 
 class SumSpec:
@@ -49,6 +50,8 @@ class Contract:
         self.params = []            # [(name, Kind | ObjSpec)]
         self.free = []              # free variables of a nested function (closure): [(name, Kind)]
         self.globals = []           # module globals read by the function: [(name, Kind)]
+        self.opaque = {}            # callee key -> handler(ex, st, args_env, node) -> [(state, value|Exc)]
+                                    # (assumed contract of a callee outside the unit; listed in evidence)
         self.locals = {}            # local name -> Kind
         self._requires = []
         self._ensures = []          # (fn, props)
